@@ -34,6 +34,7 @@ Mutators(x) ==
   \cup {[Op("set") EXCEPT !.i = p, !.x = 2] : p \in Ix(x)}
   \cup {[Op("add_assign") EXCEPT !.v = Fresh(Len(x))], [Op("sub_assign") EXCEPT !.v = Fresh(Len(x))],
         [Op("add_assign") EXCEPT !.v = Fresh(Len(x) + 1)], [Op("sub_assign") EXCEPT !.v = Fresh(Len(x) + 1)]}
+  \cup {[Op("clone_from") EXCEPT !.v = Fresh(n)] : n \in 0..(MaxLen + 1)}
   \cup {[Op("add_scalar_assign") EXCEPT !.x = 1], [Op("sub_scalar_assign") EXCEPT !.x = 1], [Op("mul_assign") EXCEPT !.x = -1]}
 Observers(x) ==
      {[Op("find") EXCEPT !.x = a] : a \in Vals \cup {7}}
@@ -43,6 +44,7 @@ Observers(x) ==
   \cup {[Op("get") EXCEPT !.i = p] : p \in 0..(Len(x) - 1)}
   \cup {[Op("dot") EXCEPT !.v = Fresh(Len(x))], [Op("add") EXCEPT !.v = Fresh(Len(x))], [Op("sub") EXCEPT !.v = Fresh(Len(x)), !.form = "own"],
         [Op("add") EXCEPT !.v = Fresh(Len(x) + 1), !.form = "mixed"], [Op("dot") EXCEPT !.v = Fresh(Len(x) + 1)]}
+  \cup {[Op("eq") EXCEPT !.v = Fresh(n)] : n \in 0..(Len(x) + 1)} \cup {[Op("ne") EXCEPT !.v = x], [Op("eq") EXCEPT !.v = x]}
   \cup {[Op("mul_scalar") EXCEPT !.x = 2], [Op("mul_scalar") EXCEPT !.x = -1, !.form = "left"]}
 \* observers do not change the vector: they are offered as the last step of an emitted behaviour only
 Ops(x) == Mutators(x) \cup (IF Emit /\ Len(hist) = Depth - 1 THEN Observers(x) ELSE {})
@@ -77,6 +79,7 @@ Twin(s, o) ==
     [] o.op = "add_scalar_assign" -> Map1(s, 1, o.x)
     [] o.op = "sub_scalar_assign" -> Map1(s, 1, -o.x)
     [] o.op = "mul_assign" -> Map1(s, o.x, 0)
+    [] o.op = "clone_from" -> o.v
     [] OTHER -> s
 
 (* ---------------- machine 1: histories ---------------- *)
